@@ -175,9 +175,6 @@ theorem read_named {D : List (String × DE)} {rest : List (String × DV)} (idk n
 
 /-! ### one node -/
 
-/-- The name a decision is stored under and read by (`key_type='name_or_id'`), if any. -/
-def readName (dp : Dp) : Option String := if o.keyType == 1 then dp.name else none
-
 theorem keyOf_named {dp : Dp} {nm : String} (h : readName o dp = some nm) (id' : List Tok) :
     keyOf o dp.name id' = nm ∧ dp.name = some nm := by
   unfold readName at h
@@ -494,5 +491,150 @@ theorem fromDict_toDict (o : Opts) (useInts : Bool) (rn : List String) (g : Spec
     g.fromDict useInts (toDict o b) = some d := by
   obtain ⟨D', h⟩ := reads_toDict o useInts rn b hc (rangesOk_annot g d b han)
   exact fromDict_of_reads o useInts g hcu d b (toDict o b) D' hv han h
+
+/-! ### the conditions are decidable: `condB` -/
+
+section
+variable (o : Opts) (useInts : Bool) (es : List (String × DV)) (rn : List String)
+
+theorem isQB_iff (K : String) : isQB es rn K = true ↔ isQ es rn K := by
+  simp [isQB, isQ]
+
+theorem isQB_false (K : String) : isQB es rn K = false ↔ ¬ isQ es rn K := by
+  rw [← isQB_iff]; simp
+
+theorem hasKey_false (K : String) : hasKey es K = false ↔ K ∉ es.map (·.1) := by
+  simp [hasKey]
+
+theorem leafCond_of_B (dp : Dp) (h : leafCondB o es rn dp = true) : leafCond o es rn dp := by
+  unfold leafCondB at h
+  unfold leafCond
+  cases hr : readName o dp with
+  | some nm =>
+    rw [hr] at h
+    simp only [Bool.and_eq_true, Bool.not_eq_true', hasKey_false] at h
+    exact ⟨h.1, by simpa using h.2⟩
+  | none =>
+    rw [hr] at h
+    simpa using h
+
+theorem choiceCond_of_B (dp : Dp) (x : DV) (h : choiceCondB o es rn dp x = true) : choiceCond o es rn dp x := by
+  unfold choiceCondB at h
+  unfold choiceCond
+  cases hr : readName o dp with
+  | some nm =>
+    rw [hr] at h
+    simp only [Bool.and_eq_true, Bool.not_eq_true', hasKey_false] at h
+    exact ⟨h.1, by simpa using h.2⟩
+  | none =>
+    rw [hr] at h
+    simp only at h ⊢
+    cases hs : dp.sub with
+    | none => rw [hs] at h; simpa using h
+    | some idx =>
+      rw [hs] at h
+      simp only at h ⊢
+      by_cases hm : o.multi = 1
+      · have hm' : (o.multi == 1) = true := by simp [hm]
+        simp only [hm', if_true, Bool.and_eq_true, Bool.not_eq_true', hasKey_false, isQB_false,
+          decide_eq_true_eq, beq_iff_eq] at h
+        simp only [hm, if_true]
+        obtain ⟨⟨⟨⟨⟨h1, h2⟩, h3⟩, h4⟩, h5⟩, h6⟩ := h
+        refine ⟨h1, ?_, h3, h4, h5, h6⟩
+        intro nm e
+        rw [e] at h2
+        simpa [hasKey] using h2
+      · have hm' : (o.multi == 1) = false := by simp [hm]
+        simp only [hm', Bool.false_eq_true, if_false, Bool.and_eq_true, beq_iff_eq, Bool.or_eq_true,
+          Bool.not_eq_true', isQB_false] at h
+        simp only [hm, if_false]
+        refine ⟨h.1, fun h0 => ?_⟩
+        rcases h.2 with h2 | h2
+        · exact absurd h2 h0
+        · exact h2
+
+theorem styleOk_of_B (lits : Option (List Lit)) (h : styleOkB o useInts lits = true) : styleOk o useInts lits := by
+  unfold styleOkB at h
+  unfold styleOk
+  split at h
+  · rename_i h0; rw [h0]; simpa using h
+  · rename_i h3
+    rw [h3]
+    simp only
+    cases lits with
+    | none => trivial
+    | some ls =>
+      simp only [Bool.and_eq_true, decide_eq_true_eq, List.all_eq_true] at h
+      refine ⟨h.1, fun l hl => ?_⟩
+      have := h.2 l hl
+      cases l with
+      | i v => simpa [litOkB] using this
+      | s t => simpa [litOkB] using this
+      | f a b => trivial
+  · rename_i h0 h3
+    split
+    · rename_i e; exact absurd e h0
+    · rename_i e; exact absurd e h3
+    · trivial
+
+mutual
+  theorem cond_of_B : ∀ (b : BDNA), condB o useInts es rn b = true → Cond o useInts es rn b
+    | .mk v bound cs, h => by
+      cases bound with
+      | none =>
+        have : condLB o useInts es rn cs = true := by cases v <;> exact h
+        have r := condL_of_B cs this
+        cases v <;> exact r
+      | some dp =>
+        by_cases hk : dp.kind = .choice
+        · have hkb : (dp.kind == .choice) = true := by simp [hk]
+          cases v with
+          | int i =>
+            simp only [condB, hkb, if_true, Bool.and_eq_true] at h
+            simp only [Cond, hk, if_true]
+            refine ⟨choiceCond_of_B o es rn dp _ h.1.1, styleOk_of_B o useInts dp.lits h.1.2, ?_⟩
+            by_cases hvt : o.valueType = 1
+            · have hvb : (o.valueType == 1) = true := by simp [hvt]
+              have h2 := h.2
+              simp only [hvb, if_true, List.all_eq_true, Bool.not_eq_true', isQB_false] at h2
+              simp only [hvt, if_true]
+              exact h2
+            · have hvb : (o.valueType == 1) = false := by simp [hvt]
+              have h2 := h.2
+              simp only [hvb, Bool.false_eq_true, if_false] at h2
+              simp only [hvt, if_false]
+              exact condL_of_B cs h2
+          | none =>
+            simp only [condB, hkb, if_true] at h
+            simp only [Cond, hk, if_true]
+            exact condL_of_B cs h
+          | flt a e =>
+            simp only [condB, hkb, if_true] at h
+            simp only [Cond, hk, if_true]
+            exact condL_of_B cs h
+          | str t =>
+            simp only [condB, hkb, if_true] at h
+            simp only [Cond, hk, if_true]
+            exact condL_of_B cs h
+        · have hkb : (dp.kind == .choice) = false := by simp [hk]
+          have h' : leafCondB o es rn dp = true ∧ condLB o useInts es rn cs = true := by
+            cases v <;> (simp only [condB, hkb, Bool.false_eq_true, if_false, Bool.and_eq_true] at h; exact h)
+          have r : leafCond o es rn dp ∧ CondL o useInts es rn cs :=
+            ⟨leafCond_of_B o es rn dp h'.1, condL_of_B cs h'.2⟩
+          cases v <;> (simp only [Cond, hk, if_false]; exact r)
+  theorem condL_of_B : ∀ (cs : List BDNA), condLB o useInts es rn cs = true → CondL o useInts es rn cs
+    | [], _ => trivial
+    | c :: cs, h => by
+      simp only [condLB, Bool.and_eq_true] at h
+      exact ⟨cond_of_B c h.1, condL_of_B cs h.2⟩
+end
+end
+
+/-- FROM_DICT ∘ TO_DICT with the decidable condition `dictCond` (see `PgModel/Geno/DictCond.lean`). -/
+theorem fromDict_toDict_B (o : Opts) (useInts : Bool) (g : Spec) (hcu : g.noCustom = true)
+    (d : DNA) (b : BDNA) (hv : g.valid d = true) (han : g.annot d = some b)
+    (hc : dictCond o useInts b = true) :
+    g.fromDict useInts (toDict o b) = some d :=
+  fromDict_toDict o useInts (readNames o b) g hcu d b hv han (cond_of_B o useInts _ _ b hc)
 
 end Pg.Geno
